@@ -521,6 +521,10 @@ var c16OpToks = map[string]token.Token{"lt": token.LSS, "le": token.LEQ, "gt": t
 func (fl *c16Flow) atom(e ast.Expr) (string, bool, bool) {
 	rd := fl.rd
 	info := rd.f.Info()
+	e = fl.rw(e)
+	if id, neg, ok := fl.countAtom(e); ok {
+		return id, neg, true
+	}
 	a, b, op, isCmp := kit.CmpAtom(e)
 	if !isCmp {
 		return "", false, false
@@ -697,6 +701,9 @@ func (fl *c16Flow) leafKnown(e ast.Expr, s kit.S) bool {
 		return true
 	}
 	if _, ok := fl.st.FoldExpr(e, s); ok {
+		return true
+	}
+	if call, isCall := e.(*ast.CallExpr); isCall && fl.pureHelper(fl.rd.f.CalleeFunc(call)) && fl.predicateKnown(fl.rd.f.CalleeFunc(call)) {
 		return true
 	}
 	id, _, ok := fl.atom(e)
@@ -1514,6 +1521,9 @@ func (fl *c16Flow) run() {
 		if !touches {
 			return nil
 		}
+		if fl.pureHelper(f.CalleeFunc(call)) {
+			return nil // evaluated inline: it only reads the bytes it is given
+		}
 		if bi, ok := kit.Callee(info, call).(*types.Builtin); ok {
 			switch bi.Name() {
 			case "len", "cap":
@@ -1592,8 +1602,17 @@ func (fl *c16Flow) run() {
 						}
 					}
 				}
+				// an integer handed back by a helper that was evaluated inline
+				if c16IntVar(o) && len(y.Rhs) == 1 && !u.ok {
+					if call, isCall := ast.Unparen(y.Rhs[0]).(*ast.CallExpr); isCall && fl.pureHelper(f.CalleeFunc(call)) && (len(y.Lhs) > 1 || i == 0) {
+						if v, okv := fl.tab[s.Get(fmt.Sprintf("q:ret:%d", i))]; okv && s.Get(fmt.Sprintf("q:ret:%d", i)) != "" {
+							u.val, u.ok, u.opq = v, true, false
+						}
+					}
+				}
 				ups = append(ups, u)
 			}
+			s = fl.dropPrefix(s, "q:ret:")
 			for _, u := range ups {
 				if c16IntVar(u.o) {
 					s = fl.assignInt(s, u.o, u.val, u.ok)
@@ -1702,6 +1721,20 @@ func (fl *c16Flow) run() {
 		case *ast.Ident:
 			s = fl.invalidate(s, kit.ObjOf(info, y))
 		case *ast.ReturnStmt:
+			if st.Cur() != f {
+				// an inlined helper hands integers back: remember them as linear forms
+				for i, res := range y.Results {
+					if !c16IsIntExpr(info, res) {
+						continue
+					}
+					if v, ok := fl.value(fl.rw(res), s); ok {
+						s = s.Set(fmt.Sprintf("q:ret:%d", i), fl.intern(v))
+					} else {
+						s = s.Del(fmt.Sprintf("q:ret:%d", i))
+					}
+				}
+				return []kit.S{s}
+			}
 			fl.onReturn(y, s, constructOfReturn(y))
 		}
 		if as, ok := n.(*ast.AssignStmt); ok && len(as.Lhs) == 1 && len(as.Rhs) == 1 && (as.Tok == token.ASSIGN || as.Tok == token.DEFINE) {
@@ -1712,6 +1745,47 @@ func (fl *c16Flow) run() {
 		return []kit.S{s}
 	}
 
+	st.ShouldInline = func(cf *kit.Func, call *ast.CallExpr) bool { return fl.pureHelper(cf) }
+	st.OnBranch = func(br kit.Branch, s kit.S) (t, fs []kit.S, handled bool) {
+		if br.Kind != kit.BrRange {
+			return nil, nil, false
+		}
+		cur := st.Cur()
+		if fl.c.P.Parent(cur.File, br.Range) == nil {
+			return nil, nil, false // a counting loop offered as a range: its condition is decided as such
+		}
+		ts := s
+		// every iteration re-binds key and value
+		if br.Range.Key != nil {
+			ts = fl.invalidate(ts, kit.ObjOf(info, br.Range.Key))
+		}
+		if br.Range.Value != nil {
+			ts = fl.invalidate(ts, kit.ObjOf(info, br.Range.Value))
+		}
+		// over a view of the caller's buffer or the leftover bytes the key is below
+		// the length of the view: an interpreted decision
+		var n kit.Affine
+		known := false
+		x := st.Resolve(br.Range.X)
+		if fl.isView(x) {
+			if lo, hi, ok := fl.viewBounds(x, s); ok {
+				n, known = hi.Sub(lo), true
+			}
+		} else if o := kit.ObjOf(info, x); o != nil && rd.lbVars[o] {
+			n, known = kit.AffLen(o), true
+		} else if call, ok := ast.Unparen(x).(*ast.CallExpr); ok && rd.loMethod(call) == "Bytes" {
+			known = true // length not named: no bound fact, but an interpreted decision
+			n = kit.Affine{}
+		}
+		if known {
+			if ko := kit.ObjOf(info, br.Range.Key); ko != nil && c16IntVar(ko) && !rd.unsafe[ko] && len(n.Terms)+int(c16Abs(n.K)) > 0 {
+				ts = ts.Set("a:c:lt:"+fl.intern(kit.AffVar(ko).Sub(n)), "T")
+			}
+			return []kit.S{ts}, []kit.S{s}, true
+		}
+		why := "range at " + cur.At(br.Range)
+		return []kit.S{ts.Set("q:unk", why)}, []kit.S{s.Set("q:unk", why)}, true
+	}
 	st.Eval.Consistent = func(s kit.S) bool {
 		_, _, feasible := fl.leftoverLen(s)
 		return feasible && fl.intAtomsConsistent(s)
@@ -1750,42 +1824,9 @@ func (fl *c16Flow) run() {
 		return t, fs
 	}
 	cl.Other = func(br kit.Branch, s kit.S) (t, fs []kit.S) {
-		t, fs = innerOther(br, s)
+		t, fs = innerOther(br, s) // range decisions are taken by st.OnBranch (below)
 		if len(t) > 0 && len(fs) > 0 && br.Kind != kit.BrRange {
 			return mark(t, "switch/select"), mark(fs, "switch/select")
-		}
-		if br.Kind == kit.BrRange {
-			// every iteration re-binds key and value
-			for i := range t {
-				if br.Range.Key != nil {
-					t[i] = fl.invalidate(t[i], kit.ObjOf(info, br.Range.Key))
-				}
-				if br.Range.Value != nil {
-					t[i] = fl.invalidate(t[i], kit.ObjOf(info, br.Range.Value))
-				}
-			}
-			// over a view of the caller's buffer or the leftover bytes the key is
-			// below the length of the view: an interpreted decision
-			var n kit.Affine
-			known := false
-			if fl.isView(br.Range.X) {
-				if lo, hi, ok := fl.viewBounds(br.Range.X, s); ok {
-					n, known = hi.Sub(lo), true
-				}
-			} else if o := kit.ObjOf(info, br.Range.X); o != nil && rd.lbVars[o] {
-				n, known = kit.AffLen(o), true
-			}
-			if known {
-				if ko := kit.ObjOf(info, br.Range.Key); ko != nil && c16IntVar(ko) && !rd.unsafe[ko] {
-					d := kit.AffVar(ko).Sub(n)
-					for i := range t {
-						t[i] = t[i].Set("a:c:lt:"+fl.intern(d), "T")
-					}
-				}
-				return t, fs
-			}
-			why := "range at " + f.At(br.Range)
-			return mark(t, why), mark(fs, why)
 		}
 		return t, fs
 	}
